@@ -15,6 +15,23 @@ from typing import Any, Dict, Iterable, Iterator, List, Optional, Sequence, Tupl
 PKG = "simfile"
 
 
+class RegexVal:
+    """re.compile(<constant pattern>[, flags]) as a constant."""
+
+    def __init__(self, pattern: str, flags: str = ""):
+        self.pattern = pattern
+        self.flags = flags
+
+    def __eq__(self, other):
+        return isinstance(other, RegexVal) and (self.pattern, self.flags) == (other.pattern, other.flags)
+
+    def __hash__(self):
+        return hash((self.pattern, self.flags))
+
+    def __repr__(self):
+        return f"re.compile({self.pattern!r}{', ' + self.flags if self.flags else ''})"
+
+
 class AnalysisError(Exception):
     """An anchor vanished or a construct has a shape the recogniser does not know."""
 
@@ -578,6 +595,11 @@ class Program:
                 return f(l, r)
             except Exception:
                 raise NotConst(ast.unparse(node))
+        if isinstance(node, ast.Call) and ast.unparse(node.func) == "re.compile" and 1 <= len(node.args) <= 2 and not node.keywords:
+            # a compiled pattern is represented by its pattern text (flags are kept as text)
+            pat = ev(node.args[0])
+            if isinstance(pat, str):
+                return RegexVal(pat, ast.unparse(node.args[1]) if len(node.args) == 2 else "")
         if isinstance(node, ast.Call):
             return self._eval_call(mod, node, env)
         if isinstance(node, ast.Subscript):
